@@ -251,6 +251,25 @@ B("PUBREL sent from publish()", ["C09"],
 B("IntervalLinear multiplier divided instead of multiplied", ["C08"], [(IV, "        self._k    *= self.factor", "        self._k    //= self.factor")], {"C08": ["R-GAP"]})
 N("IntervalLinear multiplier written out", ["C08"], [(IV, "        self._k    *= self.factor", "        self._k     = self._k * self.factor")])
 N("Interval (not used for PUBLISH) counting down to its initial value", ["C08"], [(IV, "        self._value = min(self._value, self.maxDelay)\n", "        self._value = min(self._value, self.maxDelay)\n        self._value = max(self.initial, self._value - 0)\n")])
+# ---- found by the first-order mutation sweep (tools/mutsweep.py): survivors of the suite that no check reported at first
+B("framer waits for a third byte", ["C03", "C15"], [(BASE, "                if len(self._buffer) < 2:\n                    break", "                if len(self._buffer) < 3:\n                    break")], {"C03": ["F5"], "C15": ["Q0"]})
+N("framer minimum test written <= 1", ["C03", "C15", "C16"], [(BASE, "                if len(self._buffer) < 2:\n                    break", "                if len(self._buffer) <= 1:\n                    break")])
+B("length-field scan steps by two", ["C03"], [(BASE, "                    if not self._buffer[lenLen] & 0x80:\n                        break\n                    lenLen += 1", "                    if not self._buffer[lenLen] & 0x80:\n                        break\n                    lenLen += 2")], {"C03": ["F3"]})
+B("connect() drops its willRetain argument", ["C02"], [(BASE, "        request.willRetain  = willRetain\n", "")], {"C02": ["S3"]})
+N("connect() argument dropped leaves the written stream well-formed", ["C18"], [(BASE, "        request.willRetain  = willRetain\n", "")])
+B("ping deadline closes in an orderly way", ["C15"], [(BASE, "            self._pingReq.alarm = None\n            self.transport.abortConnection()", "            self._pingReq.alarm = None\n            self.transport.loseConnection()")], {"C15": ["Q2"]})
+B("periodic call no longer writes the PINGREQ", ["C15"], [(BASE, "        self.transport.write(self._pingReq.pdu)\n", "")], {"C15": ["Q2"]})
+B("decodeLength divides the digit by its weight", ["C01", "C02"], [(PDU, "        value += (i & 0x7F) * multiplier", "        value += (i & 0x7F) // multiplier")], {"C01": ["L1"], "C02": ["S9"]})
+B("decodeLength weight never advanced", ["C01"], [(PDU, "        multiplier *= 0x80\n", "")], {"C01": ["L1"]})
+B("PUBLISH decoder header skip steps backwards", ["C01", "C02", "C06"], [(PDU, "            lenLen += 1\n        packet_remaining = packet[lenLen+1:]\n        self.dup    = (packet[0] & 0x08) == 0x08", "            lenLen -= 1\n        packet_remaining = packet[lenLen+1:]\n        self.dup    = (packet[0] & 0x08) == 0x08")], {"C01": ["L1"], "C02": ["S9"], "C06": ["P7"]})
+B("publish() encodes the request with dup set", ["C08"], [(PS, "        request.dup     = False\n", "        request.dup     = True\n")], {"C08": ["R-DUP"]})
+B("window-share of the retry delay subtracted", ["C08"], [(PS, "        interval = request.interval() + 0.25*len(self.factory.windowSubscribe[self.addr])", "        interval = request.interval() - 0.25*len(self.factory.windowSubscribe[self.addr])")], {"C08": ["R-DELAY"]})
+N("window-share of the retry delay written as a quarter", ["C08"], [(PS, "        interval = request.interval() + 0.25*len(self.factory.windowSubscribe[self.addr])", "        interval = request.interval() + len(self.factory.windowSubscribe[self.addr])/4.0")])
+B("loss path cancels the PUBREL alarms without clearing them", ["C13", "C04", "C11", "C14"],
+  [(PS, "        for _, request in self.factory.windowPubRelease[self.addr].items():\n            if request.alarm is not None:\n                request.alarm.cancel()\n                request.alarm = None\n", "        for _, request in self.factory.windowPubRelease[self.addr].items():\n            if request.alarm is not None:\n                request.alarm.cancel()\n")],
+  {"C13": ["H-FIRED"], "C04": ["K3"], "C11": ["X-REACH"], "C14": ["M-LOSS-IDLE"]})
+B("setBandwith drops its factor", ["C20"], [(PS, "        self._factor   = factor\n", "")], {"C20": ["G-STORE"]})
+B("unsubscribe() no longer refuses a topic argument of the wrong type", ["C20"], [(PS, "            raise MQTTWindowError(\"unsubscription requests exceeded limit\", self._window)\n        if not isinstance(request.topics, list):\n            raise TopicTypeError(type(request.topics))", "            raise MQTTWindowError(\"unsubscription requests exceeded limit\", self._window)")], {"C20": ["G-TYPE"]})
 # ---------------------------------------------------------------- C10
 B("popleft -> pop", ["C10"], [(PS, "            request = self.factory.queuePublishTx[cnx].popleft()", "            request = self.factory.queuePublishTx[cnx].pop()")], {"C10": ["W-FIFO"]})
 B("refill guard <=", ["C10"], [(PS, "len(self.factory.windowPublish[cnx]) < self._window:", "len(self.factory.windowPublish[cnx]) <= self._window:")], {"C10": ["W-BOUND"]})
